@@ -2,6 +2,7 @@
    validators of eval/eval.go preserve low-equivalence (one lemma per taint edge, for all inputs). *)
 From Verif Require Import Base.Bytes Model.Chain Model.GoText Model.Eval Model.Redact.
 From Verif Require Import Proofs.NonInterferenceRel.
+From Verif Require Import Proofs.RefSem2Depth.
 From Coq Require Import Lia ZifyN ZifyNat ZifyBool.
 
 Notation lo_c := (Forall2 lo_l).
@@ -138,15 +139,17 @@ Proof. intros H; unfold x_has_unknown. rewrite (x_depth_lo _ _ _ _ H). now apply
 
 Theorem contains_secrets_lo c1 c2 : lo_c c1 c2 -> contains_secrets c1 = contains_secrets c2.
 Proof.
-  intros H; unfold contains_secrets. pose proof (export_lo big_fuel _ _ H) as HE.
-  destruct (export big_fuel c1), (export big_fuel c2); simpl in HE; try contradiction; [|reflexivity].
+  intros H; unfold contains_secrets. rewrite (export_t_l c1 c2), (export_t_r c1 c2).
+  pose proof (export_lo (fuel2 c1 c2) _ _ H) as HE.
+  destruct (export (fuel2 c1 c2) c1), (export (fuel2 c1 c2) c2); simpl in HE; try contradiction; [|reflexivity].
   eapply x_has_secret_lo; exact HE.
 Qed.
 
 Theorem contains_unknowns_lo c1 c2 : lo_c c1 c2 -> contains_unknowns c1 = contains_unknowns c2.
 Proof.
-  intros H; unfold contains_unknowns. pose proof (export_lo big_fuel _ _ H) as HE.
-  destruct (export big_fuel c1), (export big_fuel c2); simpl in HE; try contradiction; [|reflexivity].
+  intros H; unfold contains_unknowns. rewrite (export_t_l c1 c2), (export_t_r c1 c2).
+  pose proof (export_lo (fuel2 c1 c2) _ _ H) as HE.
+  destruct (export (fuel2 c1 c2) c1), (export (fuel2 c1 c2) c2); simpl in HE; try contradiction; [|reflexivity].
   eapply x_has_unknown_lo; exact HE.
 Qed.
 
@@ -383,9 +386,9 @@ Proof.
   - reflexivity.
   - assert (HB : forall p : string * string,
                (let pc := property (fst p) c1 in
-                match pc with pl :: _ => if l_unk pl then sch_is_type sch_fuel (snd p) (top_sch pc) else String.eqb (top_type pc) (snd p) | [] => false end) =
+                match pc with pl :: _ => if l_unk pl then sch_is_type (sch_depth (top_sch pc)) (snd p) (top_sch pc) else String.eqb (top_type pc) (snd p) | [] => false end) =
                (let pc := property (fst p) c2 in
-                match pc with pl :: _ => if l_unk pl then sch_is_type sch_fuel (snd p) (top_sch pc) else String.eqb (top_type pc) (snd p) | [] => false end)).
+                match pc with pl :: _ => if l_unk pl then sch_is_type (sch_depth (top_sch pc)) (snd p) (top_sch pc) else String.eqb (top_type pc) (snd p) | [] => false end)).
     { intros p. cbv zeta. pose proof (property_lo (fst p) _ _ H) as HPr.
       rewrite (top_sch_lo _ _ HPr), (top_type_lo _ _ HPr).
       destruct HPr as [|x y ? ? Hxy _]; [reflexivity|]. now rewrite (lo_l_unk _ _ Hxy). }
